@@ -5,6 +5,8 @@ import (
 	"encoding/hex"
 	"encoding/json"
 	"fmt"
+	"github.com/gcash/bchutil/gcs/builder"
+	"github.com/gcash/bchutil/txsort"
 	"runtime/metrics"
 	"sort"
 	"strings"
@@ -135,6 +137,13 @@ func c08Eval(w *mc.W, cas c08Case) {
 			if err == nil {
 				tx.Hash()
 				tx.MsgTx()
+				// what a node does with a relayed transaction: matched against a peer's filter, put into
+				// the mempool filter, examined for BIP69 order
+				f := bloom.LoadFilter(wire.NewMsgFilterLoad([]byte{0xff}, 1, 0, wire.BloomUpdateAll))
+				f.MatchTxAndUpdate(tx)
+				builder.BuildMempoolFilter([]*wire.MsgTx{tx.MsgTx()})
+				txsort.IsSorted(tx.MsgTx())
+				txsort.Sort(tx.MsgTx())
 			}
 		})
 	case "NewBlockFromBytes":
@@ -154,6 +163,12 @@ func c08Eval(w *mc.W, cas c08Case) {
 				bloom.NewMerkleBlock(b, f)
 				merkleblock.NewMerkleBlockWithFilter(b, f)
 				merkleblock.NewMerkleBlockWithTxnSet(b, nil)
+				// ... and into the compact block filter and the mempool filter
+				builder.BuildBasicFilter(b.MsgBlock())
+				builder.BuildMempoolFilter(b.MsgBlock().Transactions)
+				for _, t := range b.MsgBlock().Transactions {
+					txsort.IsSorted(t)
+				}
 			}
 		})
 	case "bloom":
@@ -811,6 +826,66 @@ func c08Cases(c *mc.Ctx) ([]c08Case, int) {
 		var b bytes.Buffer
 		blk.Serialize(&b)
 		mutate("NewBlockFromBytes", b.Bytes(), i == 0 || c.Thorough())
+	}
+
+	// 3b. scripts whose push opcodes CLAIM lengths: a coinbase plus one transaction carrying the script
+	// as an output script and as a signature script, parsed from bytes and sent through everything
+	// that walks scripts (filter matching, proof builders, compact filters).  Claimed lengths: small
+	// values, the width boundaries, 2^31 and the last sixteen values below 2^32 (an offset plus such a
+	// length wraps in 32-bit arithmetic), after each of five script prefixes.
+	{
+		var scripts [][]byte
+		le := func(v uint64, w int) []byte {
+			b := make([]byte, w)
+			for i := 0; i < w; i++ {
+				b[i] = byte(v >> (8 * uint(i)))
+			}
+			return b
+		}
+		claims := map[byte][]uint64{
+			0x4c: {0, 1, 2, 0x4b, 0x4c, 0x7f, 0x80, 0xfe, 0xff},
+			0x4d: {0, 1, 0xff, 0x100, 0x7fff, 0x8000, 0xfffe, 0xffff},
+			0x4e: {0, 1, 0xffff, 0x10000, 0x7fffffff, 0x80000000, 0x80000001},
+		}
+		for v := uint64(0xfffffff0); v <= 0xffffffff; v++ {
+			claims[0x4e] = append(claims[0x4e], v)
+		}
+		for _, pre := range [][]byte{{}, {0x6a}, {0x6a, 0x04, 1, 2, 3, 4}, {0x51}, {0x76, 0xa9, 0x14}} {
+			for op, w := range map[byte]int{0x4c: 1, 0x4d: 2, 0x4e: 4} {
+				for _, v := range claims[op] {
+					for _, tail := range [][]byte{{}, {0xaa, 0xbb}, bytes.Repeat([]byte{0xcc}, 40)} {
+						sc := append(append(append(append([]byte{}, pre...), op), le(v, w)...), tail...)
+						scripts = append(scripts, sc)
+					}
+				}
+			}
+			for op := byte(1); op <= 0x4b; op += 0x25 { // direct pushes with too little data behind them
+				scripts = append(scripts, append(append([]byte{}, pre...), op), append(append([]byte{}, pre...), op, 0x01))
+			}
+		}
+		sort.Slice(scripts, func(i, j int) bool { return bytes.Compare(scripts[i], scripts[j]) < 0 })
+		for _, sc := range scripts {
+			for pos := 0; pos < 2; pos++ {
+				tx := wire.NewMsgTx(1)
+				sig, pk := []byte{0x51}, []byte{0x51}
+				if pos == 0 {
+					pk = sc
+				} else {
+					sig = sc
+				}
+				tx.AddTxIn(wire.NewTxIn(&wire.OutPoint{Hash: chainhash.Hash{0x42}, Index: 1}, sig))
+				tx.AddTxOut(wire.NewTxOut(7, pk, wire.TokenData{}))
+				var tb bytes.Buffer
+				tx.Serialize(&tb)
+				add(c08Case{Family: "NewTxFromBytes", Input: mc.Hex(tb.Bytes())})
+				blk := wire.NewMsgBlock(fixedHeader(1, &chainhash.Hash{1}, &chainhash.Hash{2}, 3, 4))
+				blk.AddTransaction(honest[0])
+				blk.AddTransaction(tx)
+				var bb bytes.Buffer
+				blk.Serialize(&bb)
+				add(c08Case{Family: "NewBlockFromBytes", Input: mc.Hex(bb.Bytes())})
+			}
+		}
 	}
 
 	// 4. bloom
